@@ -11,6 +11,9 @@ from pyvc import solve
 def main():
     pat = sys.argv[1] if len(sys.argv) > 1 else ""
     verbose = "-v" in sys.argv
+    only = None
+    if "-k" in sys.argv:
+        only = sys.argv[sys.argv.index("-k") + 1]
     reg = Registry().load_package("contracts")
     repo = Repo()
     bad = 0
@@ -26,6 +29,10 @@ def main():
             bad += 1
             continue
         obls = res["obligations"]
+        print("   symbolic execution: %.1fs, %d paths, %d obligations" % (time.time() - t0, res["paths"], len(obls)))
+        if only is not None:
+            obls = [o for o in obls if only in o.name]
+            res["probes"] = []
         rs, texts = solve.discharge(obls, timeout_s=10)
         vac = solve.probe(res["probes"]) if all(r["status"] == "unsat" for r in rs) else []
         print("== %s: %d paths, %d obligations (+%d trivial), %.1fs" % (tgt, res["paths"], len(obls), res["trivial"], time.time() - t0))
